@@ -252,9 +252,12 @@ def has_empty_middle(op):
     return False
 
 
-def check_sequence(ops, new_card, apply_op, build=None):
-    """Replays ops on a real card and on the reference; returns None or the first step where they differ."""
-    from impl_card import model_op, path_string
+def check_sequence(ops, new_card, apply_op, build=None, model_op=None):
+    """Replays ops on a real card and on the reference; returns None or the first step where they differ.
+    model_op must come from the module whose apply_op is used (it reads the HTML text recorded by that module's wrapper)."""
+    from impl_card import path_string
+    if model_op is None:
+        from impl_card import model_op
     card, ref = new_card(), Ref()
     for i, op in enumerate(ops):
         got_cls, got = apply_op(card, op)
